@@ -451,6 +451,14 @@ func (v *Validators) PayRewardsV5Fix(height uint64, period int64) (moreRewards *
 	}
 
 	for _, validator := range vals {
+		if validator.GetTotalBipStake().Sign() == 0 {
+			// a validator punished for byzantine behaviour in this block has a
+			// zero total stake while its candidate's stakes keep their bip
+			// values until the next recalculation; it is dropped and its
+			// accumulated reward has already been returned to the reward pool
+			continue
+		}
+
 		candidate := v.bus.Candidates().GetCandidate(validator.PubKey)
 
 		totalReward := big.NewInt(0).Set(validator.GetAccumReward())
